@@ -201,6 +201,10 @@ def huge_items():
 
 
 def run(ctx):
+    C.seam_check(ctx["report"], ctx["rundir"], "C01", wrappers=[],
+                 pairs=[("a = 1.5^64; (3/2)^64", "3^64/2^64"), ("a = 2.5^70; (5/2)^70", "5^70/2^70"), ("a = 0.5^100; (1/2)^100", "1/2^100"), ("a = 0.25^33; (1/4)^33", "1/4^33"),
+                        ("(-1)^(10^10 + 1)", "-1"), ("1^10000000000", "1"), ("0^(10^12)", "0"), ("(7 % 2)^(10^10) + 1/3 - 1/3", "1"), ("(-1)^(2^40)", "1"),
+                        ("a = (-2)^5; (-1)^5", "-1"), ("(-1)^4 + (-2)^4", "17")])
     C.config_matrix(ctx["report"], ctx["rundir"], "C01", ["1/2 + 1/3", "10^30/10", "(10^20+1)/2", "7 % -2", "int(-7/2)", "10^5000 + 1", "1e5000/3", "3^30000 % 10^20", "(3/2)^64", "2^10 - 1/3", "0/5", "5/0", "abs(-(10^1500))", "floor((10^1500+1)/7)"])
     C.expect_sessions(ctx["report"], ctx["rundir"], "C01", huge_items(), kind="huge-result")
     rep, tier, seed = ctx["report"], ctx["tier"], ctx["seed"]
